@@ -20,7 +20,7 @@ from .detref import Vec, Hamiltonian, CRE, ANN, apply_string
 
 class PT:
     def __init__(self, model, val, variant="mp", singles=False, fock="f", eri="V",
-                 amp="t", orb_energy="e", canonical=False):
+                 amp="t", orb_energy="e", canonical=False, explicit=False):
         """
         canonical=True : f_pq = delta_pq e_p  (needed for the closed-form MP
                          amplitudes, whose denominators are orbital energies)
@@ -32,6 +32,9 @@ class PT:
         self.variant, self.singles = variant, singles
         self.fock, self.eri, self.amp, self.orb_energy = fock, eri, amp, orb_energy
         self.canonical = canonical
+        # explicit=True: the wavefunction corrections are not parametrised but built
+        # recursively from the closed-form MP amplitudes (integrals and energies only)
+        self.explicit = explicit
         self.ref = detref.reference_det(self.n_o)
         self._psi = {}
         self._energy = {}
@@ -129,7 +132,10 @@ class PT:
                     for A in combinations(virts, k):
                         ops = [(CRE, a) for a in A] + [(ANN, i) for i in reversed(I)]
                         r = apply_string(ops, self.ref)
-                        t = SP.from_ml(self.val.tensor(name, "M", tuple(A), tuple(I), 0))
+                        if self.explicit:
+                            t = self.mp_amplitude(order, tuple(I), tuple(A))
+                        else:
+                            t = SP.from_ml(self.val.tensor(name, "M", tuple(A), tuple(I), 0))
                         v.add(r[1], t * (sgn * r[0]))
         self._psi[key] = v
         return v
@@ -204,6 +210,32 @@ class PT:
                 return SP.from_ml(val.tensor(name, "A", (p, q), (r, s), 0))
             return Hamiltonian(self.n, None, two)
         raise ValueError("operator rank")
+
+    def density(self, order, p, q):
+        """order-n coefficient of <Psi| a+_p a_q |Psi> / <Psi|Psi>"""
+        def one(x, y):
+            return SP.const(1) if (x, y) == (p, q) else SP()
+        op = Hamiltonian(self.n, one, None)
+        return self._expec_series(order, op)[order]
+
+    def _expec_series(self, order, op):
+        N, S = [], []
+        for n in range(order + 1):
+            num, ovl = SP(), SP()
+            for a in range(n + 1):
+                b = n - a
+                bra = self.psi(a, bra=True)
+                num = num + bra.dot(op.apply(self.psi(b)))
+                ovl = ovl + bra.dot(self.psi(b))
+            N.append(num)
+            S.append(ovl)
+        R = []
+        for n in range(order + 1):
+            r = N[n]
+            for k in range(1, n + 1):
+                r = r - S[k] * R[n - k]
+            R.append(r)
+        return R
 
     def expectation_value(self, order, name, n_particles):
         """order-n coefficient of <Psi|D|Psi>/<Psi|Psi>, Psi = sum lambda^m psi^(m)."""
